@@ -4,6 +4,7 @@ package main
 
 import (
 	"bufio"
+	"bytes"
 	"encoding/json"
 	"fmt"
 	"os"
@@ -24,8 +25,17 @@ func c11Key() []byte {
 }
 func c11IV(i int) []byte {
 	b := make([]byte, 16)
-	if i == 0 {
+	switch i {
+	case 0:
 		return b
+	case 3:
+		return []byte("0123456789abcdef")
+	case 4:
+		return []byte("0123456789abcdeF")
+	case 5:
+		return bytes.Repeat([]byte{0xfe}, 16)
+	case 6:
+		return bytes.Repeat([]byte{0xff}, 16)
 	}
 	for j := 1; j <= 16; j++ {
 		b[j-1] = byte((i*53 + j*17) % 256)
